@@ -10,7 +10,9 @@ END token).  Identifiers, literals, comments and layout are identical in all spe
               (and the keyword `self` where the grammar stores it as an instance name)
   kind 'exec'   a program that runs on a small population (classes A, B, C; R1 1:M, R2 1:1, R3 reflexive; select
                 any/many/one, where, for each, while, if/elif/else, relate/unrelate, create/delete,
-                cardinality/empty/not_empty, and/or/not, true/false, break/continue/return, param)
+                cardinality/empty/not_empty, and/or/not, true/false, break/continue/return, param; the domain functions
+                ::spawn() / ::mark(v:n) with a side effect as the right operand of and/or, with left operands that
+                do and do not decide the result)
        D(i)   as above
        D(ii)  `bridgepoint.interpret.run_function` gives the same result (or the same exception class) and the same
               final population for every spelling
@@ -179,6 +181,8 @@ def _val(v):
 
 def _run(text, n):
     m = _m['exec_loader'].build_metamodel()
+    funcs = G.exec_functions(m)
+    m.find_symbol = funcs.__getitem__            # the interpreter resolves ::f() through domain.find_symbol
     try:
         r = _m['interpret'].run_function(m, 'f', text, {'n': n})
         res = ['ok', _val(r)]
@@ -204,6 +208,8 @@ def _mk_ooa():
     sp = m.new('S_SPARM', Name='n')
     relate(sp, s_sync, 24)
     relate(sp, dt('integer'), 26)
+    for fn in G.EXEC_FUNCTIONS:
+        relate(dt('boolean'), pe(m.new('S_SYNC', Name=fn)), 25)
     objs = {}
     for kl in sorted(G.EXEC_ATTRS):
         o = pe(m.new('O_OBJ', Key_Lett=kl, Name=kl))
